@@ -436,6 +436,20 @@ def check(c, st):
     if pv([q for q in got if q.name not in ('zz', 'yy')]) != pv(params) or newd != {'zz': 'dz', 'yy': None}:
         return ('expected:two', '%s with expected=%r -> %s' % (source(sig).splitlines()[0], exp2,
                                                                inspect.signature(we, follow_wrapped=False)))
+    # ... and a defaulted one followed by a required one: every other parameter stays as it was, zz gets its default
+    # and yy none, whatever the function's own parameters look like
+    st.monitor_evals += 1
+    exp3 = [('zz', 'dz'), 'yy']
+    try:
+        we = fu.wraps(f, expected=exp3)(passthrough)
+        got = list(inspect.signature(we, follow_wrapped=False).parameters.values())
+    except Exception as e:
+        return ('expected-raised:default-then-required:%s' % type(e).__name__, 'wraps(%s, expected=%r) raised %r'
+                % (source(sig).splitlines()[0], exp3, e))
+    newd = dict((q.name, q.default) for q in got if q.name in ('zz', 'yy'))
+    if pv([q for q in got if q.name not in ('zz', 'yy')]) != pv(params) or newd != {'zz': 'dz', 'yy': inspect.Parameter.empty}:
+        return ('expected:default-then-required', '%s with expected=%r -> %s' % (source(sig).splitlines()[0], exp3,
+                                                                                   inspect.signature(we, follow_wrapped=False)))
     # expected: a new parameter, with and without default
     for exp, tag in ((['zz'], 'required'), ([('zz', 'dz')], 'with-default'), ({'zz': 'dz'}, 'mapping')):
         st.monitor_evals += 1
